@@ -1,5 +1,6 @@
 (* C15 — gzip plugin: what the client decodes is exactly what the backend sent.  Statements only. *)
 From Helios Require Import Base.Prelude Model.RespWriter Proofs.WriterProofs Proofs.GzipProofs.
+From Helios Require Import Gen.GzipGen Proofs.GzipRefine.
 
 (* without the token "gzip" in Accept-Encoding the plugin does not touch the exchange at all *)
 Theorem C15_identity_without_ae : forall cfg cs, gz_transform cfg false cs = cs.
@@ -31,6 +32,22 @@ Theorem C15_decodes :
     view_eq (view (base_run base0 (gz_transform cfg ae cs))) (view (base_run base0 cs)).
 Proof. exact gz_decodes. Qed.
 Print Assumptions C15_decodes.
+
+(* The wrapper machine the theorems above speak of is the source: Gen/GzipGen.v is regenerated from compression.go on every run
+   (gzipResponseWriter's WriteHeader, commit, streamUncompressed, Write, Flush, Finish, as functions that append the calls they
+   make on the underlying writer to a log; shouldGzipBody's decision is handed in), and for every script of handler calls with
+   byte-slice writes the regenerated methods make exactly the calls of gz_transform *)
+Theorem C15_model_is_source :
+  forall mn lv cfg cs, gz_cap cfg = 10 * 1024 * 1024 -> forallb byte_call cs = true ->
+    gzg_out (fst (gzg_Finish (fun n => n) (fold_left gzg_step cs (mkgzipResponseWriter 0 false false mn lv 0 false [])) 0
+                             (gz_should cfg (fst (gz_run cfg gzw0 cs)))))
+    = gz_transform cfg true cs.
+Proof. exact transform_is_source. Qed.
+Print Assumptions C15_model_is_source.
+
+(* ... and the wrapper type offers no way around the buffer: it implements Flush and Hijack only *)
+Theorem C15_no_bypass : gzg_optional_interfaces = [1; 2].
+Proof. exact interfaces_as_modelled. Qed.
 
 Example C15_nonvacuous :
   let cfg := {| gz_min := 16; gz_cap := 10485760; gz_types := [0] |} in
